@@ -510,7 +510,7 @@ def rand_frags(rng):
 
 def gen_cases(ctx, n=None):
     r = ctx.rng
-    for k in range(n or ctx.budget(110, 900)):
+    for k in range(n or ctx.budget(260, 900)):
         small = (k % 3 == 0)
         rows, meta = G.rand_forest(r, nmax=9 if small else (16 if ctx.quick() else 22))
         tp = Topo(rows)
@@ -542,6 +542,22 @@ def gen_cases(ctx, n=None):
             yield 'sa', dict(rows=rows, meta=meta)
         fr, fk = rand_frags(r)
         yield 'segidx', dict(frags=fr, fkind=fk, meta=dict(shape='frags', n=len(fr), labeling='-', order='-'))
+
+
+def exhaustive_cases(nmax=5):
+    """every forest shape with ≤ nmax nodes (parent index < own index or root), ids 0..n-1 (contains id 0)"""
+    import itertools
+    for n in range(1, nmax + 1):
+        for par in itertools.product(*[range(-1, i) for i in range(n)]):
+            rows = []
+            for i in range(n):
+                rows.append(dict(id=i, parent=par[i], x=3 * i, y=(4 * i if par[i] >= 0 else 0), z=0))
+            # integer edge lengths: place children on a 3-4-5 lattice relative to the parent
+            for i in range(n):
+                if par[i] >= 0:
+                    p = rows[par[i]]
+                    rows[i]['x'], rows[i]['y'], rows[i]['z'] = p['x'] + 3, p['y'] + 4 * ((i % 2) * 2 - 1), p['z']
+            yield rows
 
 
 RUNNERS = {'strahler': case_strahler, 'sfc': case_sfc, 'flowc': case_flowc, 'bend': case_bend, 'segidx': case_segidx,
@@ -580,6 +596,24 @@ def run(ctx, be=None):
             for b in (('igraph', 'networkx') if not ctx.quick() else (('igraph',) if k % 8 == 0 else ('networkx',))):
                 ctx.case(dict(case, kind=kind, be=b), nontrivial=nontriv)
                 run_case(ctx, kind, case, b)
+
+
+    if be is None and not ctx.quick() and not ctx.search_mode:
+        meta = dict(shape='exhaustive', labeling='zero', order='parent_first')
+        for rows in exhaustive_cases(5):
+            n = len(rows)
+            cn = [[i, 'pre' if (i + j) % 2 else 'post'] for i in range(n) for j in range(1 + i % 2)]
+            for b in (None, 'igraph', 'networkx'):
+                for g in (False, True):
+                    c = dict(rows=rows, greedy=g, ignore=[], min_twig=None, meta=dict(meta, n=n))
+                    ctx.case(dict(c, kind='strahler', be=b), nontrivial=n >= 3)
+                    run_case(ctx, 'strahler', c, b)
+                if n <= 4 or b is None:
+                    for mode in MODES:
+                        c = dict(rows=rows, connectors=cn, ckind='fixed', mode=mode, meta=dict(meta, n=n))
+                        ctx.case(dict(c, kind='sfc', be=b), nontrivial=n >= 3)
+                        run_case(ctx, 'sfc', c, b)
+            ctx.count('exhaustive', n)
 
 
 def replay(ctx, rp):
